@@ -20,6 +20,8 @@
  * Certificate / CertificateVerify stay mandatory), HelloRetryRequest handshakes and accepted 0-RTT (EndOfEarlyData under the early traffic
  * key).  Besides the single-step deviations, blocks of 2 .. n-1 adjacent messages are skipped (Certificate + CertificateVerify, ...). */
 #include "mx_surgeon.h"
+#include <openssl/pem.h>
+#include <openssl/x509.h>
 
 /* offer: what the client offers that the server does NOT take up (the negotiated mode is read from the ServerHello on the wire, never from this configuration):
  *   OF_TKT_NOECHO     TLS <= 1.2 client sends the session_ticket extension, the server has no ticket keys (no echo, no NewSessionTicket in the honest flight);
@@ -27,10 +29,14 @@
  *   OF_TKT13_STALE    TLS 1.3 client offers a ticket of the priming handshake, the server's ticket keys were rotated since.
  * hrr: the client's only key share is for a group the server lacks (HelloRetryRequest handshake); early: accepted 0-RTT data (EndOfEarlyData in the client's flight). */
 enum { OF_NONE = 0, OF_TKT_NOECHO, OF_PSK13_UNKNOWN, OF_TKT13_STALE };
-typedef struct { const char *name; int ver; uint16_t suite; int clientAuth, resumed, ticket; int offer, hrr, early; int quick; /* roles attacked in the quick tier: bit 0 client, bit 1 server */ int lightfrag; /* quick: fragmented framing for a third of the cases only */ } hmode_t;
+typedef struct { const char *name; int ver; uint16_t suite; int clientAuth, resumed, ticket; int offer, hrr, early; int quick; /* roles attacked in the quick tier: bit 0 client, bit 1 server */ int lightfrag; /* quick: fragmented framing for a third of the cases only */ int ckt; /* key type of the client's certificate where it is not the suite's default: CK_* */ } hmode_t;
+enum { CK_DEFAULT = 0, CK_RSAPSS /* id-RSASSA-PSS SubjectPublicKeyInfo */, CK_ED25519, CK_ECDSA /* ECDSA client certificate on an RSA suite */, CK_RSA /* RSA client certificate on an ECDSA suite */ };
 static hmode_t modes[64]; static int nmodes;
 static hmode_t *addm(const char *n, int v, uint16_t s, int ca, int res, int tk) { modes[nmodes] = (hmode_t) { n, v, s, ca, res, tk, 0, 0, 0, 3, 0 }; return &modes[nmodes++]; }
 static hmode_t *addx(const char *n, int v, uint16_t s, int ca, int res, int tk, int offer, int quick) { hmode_t *m = addm(n, v, s, ca, res, tk); m->offer = offer; m->quick = quick; m->lightfrag = 1; return m; }
+/* client authentication with a certificate of key type ckt (the server trusts the issuers of all sample client certificates) */
+static hmode_t *addk(const char *n, int v, uint16_t s, int ckt, int quick) { hmode_t *m = addx(n, v, s, 1, 0, 0, OF_NONE, quick); m->ckt = ckt; return m; }
+static int ck_honest(const hmode_t *m) { return m->ckt == CK_ECDSA || m->ckt == CK_RSA || (m->ckt == CK_ED25519 && m->ver == MX_TLS13); }   /* this build's client can sign with that key in that version */
 static void build_modes(void)
 {
     addm("rsa", MX_TLS12, 0x003c, 0, 0, 0); addm("rsa-clientauth", MX_TLS12, 0x009c, 1, 0, 0);
@@ -50,10 +56,21 @@ static void build_modes(void)
     addx("aes128gcm-hrr", MX_TLS13, 0x1301, 0, 0, 0, OF_NONE, 3)->hrr = 1;
     addx("aes128gcm-clientauth-hrr", MX_TLS13, 0x1301, 1, 0, 0, OF_NONE, 0)->hrr = 1;
     addx("aes128gcm-resumed-early", MX_TLS13, 0x1301, 0, 1, 0, OF_NONE, 3)->early = 1;
+    /* Client certificate key types beyond the suite's own: whether the server expects CertificateVerify must not depend on the key type of the certificate.
+       Where this build's client can authenticate with such a key (ECDSA on RSA suites and vice versa, Ed25519 in TLS 1.3) the handshake is honest; otherwise the
+       deviant peer presents the PUBLIC sample certificate (id-RSASSA-PSS, Ed25519) in place of the honest client's - it proves nothing, which is the point.
+       Quick: the server is attacked with deletions, skipped blocks, swaps and duplicates (all framings). */
+    addk("rsa-clientauth-rsapss-cert", MX_TLS12, 0x009c, CK_RSAPSS, 2); addk("ecdhe-rsa-clientauth-ed25519-cert", MX_TLS12, 0xc02f, CK_ED25519, 2);
+    addk("ecdhe-rsa-clientauth-ecdsa-cert", MX_TLS12, 0xc02f, CK_ECDSA, 2); addk("ecdhe-ecdsa-clientauth-rsa-cert", MX_TLS12, 0xc02b, CK_RSA, 0);
+    addk("rsa-clientauth-rsapss-cert", MX_TLS11, 0x0035, CK_RSAPSS, 2); addk("rsa-clientauth-ecdsa-cert", MX_TLS11, 0x002f, CK_ECDSA, 0); addk("ecdhe-rsa-clientauth-ed25519-cert", MX_TLS11, 0xc014, CK_ED25519, 0);
+    addk("rsa-clientauth-ecdsa-cert", MX_DTLS12, 0x009c, CK_ECDSA, 0);
+    addk("aes128gcm-clientauth-rsapss-cert", MX_TLS13, 0x1301, CK_RSAPSS, 0); addk("aes128gcm-clientauth-ed25519-cert", MX_TLS13, 0x1301, CK_ED25519, 0); addk("aes128gcm-clientauth-ecdsa-cert", MX_TLS13, 0x1301, CK_ECDSA, 0);
 }
 
 /* key sets of the declined-offer modes */
 static sslKeys_t *k_srv_notk, *k_srv_rot, *k_cli_psk13, *k_cli_psk13_noid;
+static unsigned char *ck_der[5]; static int ck_derlen[5];      /* the sample certificates by CK_* (public part only) */
+static sslKeys_t *k_srv_rsa_allca, *k_srv_ec_allca, *k_cli_kt[5];      /* servers trusting the issuers of every sample client certificate; clients by CK_* */
 static void own_keys_load(void)
 {
     static const unsigned char tn[16] = "rotated-tkt-key", tk[32] = { 5, 5, 5 }, th[32] = { 6, 6, 6 }, psk[32] = { 0xc0, 0x6f, 1, 2, 3, 4, 5, 6, 7, 8 }, pskid[] = "c06-psk-unknown-to-the-server";
@@ -65,9 +82,15 @@ static void own_keys_load(void)
     rc |= matrixSslLoadTls13Psk(k_cli_psk13, psk, 32, pskid, sizeof(pskid) - 1, NULL) < 0;
     rc |= matrixSslNewKeys(&k_cli_psk13_noid, NULL) < 0; rc |= matrixSslLoadKeys(k_cli_psk13_noid, NULL, NULL, NULL, mx_ca_both, NULL) < 0;
     rc |= matrixSslLoadTls13Psk(k_cli_psk13_noid, psk, 32, pskid, sizeof(pskid) - 1, NULL) < 0;
+    static const char *ca_all = MX_TK "RSA/2048_RSA_CA.pem;" MX_TK "EC/256_EC_CA.pem;" MX_TK "RSA/2048_RSA_PSS_CA.pem;" MX_TK "EC/ED25519_CA.pem";
+    rc |= matrixSslNewKeys(&k_srv_rsa_allca, NULL) < 0; rc |= matrixSslLoadKeys(k_srv_rsa_allca, MX_TK "RSA/2048_RSA.pem", MX_TK "RSA/2048_RSA_KEY.pem", NULL, ca_all, NULL) < 0;
+    rc |= matrixSslNewKeys(&k_srv_ec_allca, NULL) < 0; rc |= matrixSslLoadKeys(k_srv_ec_allca, MX_TK "EC/256_EC.pem", MX_TK "EC/256_EC_KEY.pem", NULL, ca_all, NULL) < 0;
+    static const char *kt[5][2] = { { NULL, NULL }, { MX_TK "RSA/2048_RSA_PSS.pem", MX_TK "RSA/2048_RSA_PSS_KEY.pem" }, { MX_TK "EC/ED25519.pem", MX_TK "EC/ED25519_KEY.pem" }, { MX_TK "EC/256_EC.pem", MX_TK "EC/256_EC_KEY.pem" }, { MX_TK "RSA/2048_RSA.pem", MX_TK "RSA/2048_RSA_KEY.pem" } };
+    for (int i = 1; i < 5; i++) { FILE *f = fopen(kt[i][0], "r"); X509 *x = f ? PEM_read_X509(f, NULL, NULL, NULL) : NULL; if (f) fclose(f); ck_derlen[i] = x ? i2d_X509(x, &ck_der[i]) : -1; if (x) X509_free(x); if (ck_derlen[i] <= 0) { fprintf(stderr, "HARNESS: cannot read %s\n", kt[i][0]); rc = 1; } }
+    for (int i = 1; i < 5; i++) { rc |= matrixSslNewKeys(&k_cli_kt[i], NULL) < 0; int r2 = matrixSslLoadKeys(k_cli_kt[i], kt[i][0], kt[i][1], NULL, mx_ca_both, NULL); if (r2 < 0) { fprintf(stderr, "HARNESS: c06 client key set %d: %d\n", i, r2); rc = 1; } }
     if (rc) { fprintf(stderr, "HARNESS: c06 key sets failed to load\n"); exit(2); }
 }
-static void own_keys_free(void) { matrixSslDeleteKeys(k_srv_notk); matrixSslDeleteKeys(k_srv_rot); matrixSslDeleteKeys(k_cli_psk13); matrixSslDeleteKeys(k_cli_psk13_noid); }
+static void own_keys_free(void) { for (int i = 1; i < 5; i++) OPENSSL_free(ck_der[i]); matrixSslDeleteKeys(k_srv_rsa_allca); matrixSslDeleteKeys(k_srv_ec_allca); for (int i = 1; i < 5; i++) matrixSslDeleteKeys(k_cli_kt[i]); matrixSslDeleteKeys(k_srv_notk); matrixSslDeleteKeys(k_srv_rot); matrixSslDeleteKeys(k_cli_psk13); matrixSslDeleteKeys(k_cli_psk13_noid); }
 /* configuration of the priming (prime = 1) and of the attacked connection of a mode */
 static mx_cfg mode_cfg(const hmode_t *m, int prime)
 {
@@ -76,6 +99,8 @@ static mx_cfg mode_cfg(const hmode_t *m, int prime)
     if (m->offer == OF_PSK13_UNKNOWN) c.ckeys = m->clientAuth ? k_cli_psk13 : k_cli_psk13_noid;
     if (m->offer == OF_TKT13_STALE && !prime) c.skeys = k_srv_rot;
     if (m->early) c.earlyData = 16384;
+    if (m->ckt) { const mx_suite_t *su = mx_suite_by_id(m->suite); if (ck_honest(m)) c.ckeys = k_cli_kt[m->ckt]; else c.ems = -1;     /* substituted certificate: no extended master secret, the sender's record keys must not depend on the Certificate it did not send */
+        c.skeys = (su && su->auth == MX_AUTH_ECDSA) ? k_srv_ec_allca : k_srv_rsa_allca; }
     return c;
 }
 static int expect_resumed(const hmode_t *m) { return m->resumed && m->offer != OF_TKT13_STALE; }
@@ -281,18 +306,99 @@ static char cur_desc[256];
 static void report(const child_arg *a, const char *clause, int type, const char *fmt, ...)
 {
     char key[220], msg[700]; va_list ap; va_start(ap, fmt); vsnprintf(msg, sizeof msg, fmt, ap); va_end(ap);
-    snprintf(key, sizeof key, "c06:%s:%s:%s:%s%s:%s", clause, mx_vername[a->m->ver], a->role ? "server" : "client", dvname[a->dv.kind], a->frag ? "+fragmented" : "", tname(type));
+    snprintf(key, sizeof key, "c06:%s:%s:%s:%s%s:%s", clause, mx_vername[a->m->ver], a->role ? "server" : "client", dvname[a->dv.kind], a->frag == 1 ? "+fragmented" : a->frag == 2 ? "+coalesced" : "", tname(type));
     vf_violation(key, cur_desc, "%s | mode=%s flight=%d pos=%d", msg, a->m->name, a->flightNo, a->dv.pos);
+}
+
+/* ---- feeding a deviant sequence ---- */
+typedef struct { int firstAcceptedIllegal, completedEarly, completedAt; } fres_t;
+/* what the one-message-per-record run saw at message i: reached (the receiver was still alive), protection class the message was fed under
+   (0 plaintext, 1 TLS 1.3 handshake traffic key, 2 TLS 1.3 early traffic key, 3 TLS <= 1.2 read cipher active), crafted Finished value */
+typedef struct { int reached, cls, crafted, vl; unsigned char vd[64]; } probe_t;
+static int cls_of(mx_conn *k, mx_ep *T, mx_ep *P) { if (!(T->ssl->flags & SSL_FLAGS_READ_SECURE)) return 0; if (k->cfg.ver != MX_TLS13) return 3; return memcmp(T->ssl->sec.tls13ReadIv, P->ssl->sec.tls13EarlyDataIv, 12) ? 1 : 2; }
+static void feed_per_record(child_arg *a, mx_conn *k, mx_ep *T, mx_ep *P, unit_t *dseq, int nd, int same, int illegalAt, probe_t *pr, fres_t *o)
+{
+    const devn_t *dv = &a->dv;
+    for (int i = 0; i < nd; i++) {
+        if (pr) { pr[i].reached = 1; pr[i].cls = cls_of(k, T, P); }
+        if (dv->kind != DV_NONE && !same && !k->dtls && (dseq[i].type == 20 || dseq[i].type == T_ENCFIN) && !is_dead(T)) {
+            /* transcript-consistent deviant peer: a real (malicious) peer knows the session secrets and sends the Finished value that
+               matches the sequence it actually sent, i.e. the one the receiver expects over ITS transcript.  Compute that value with
+               the receiver's own snapshot function and seal it with the sender's keys. */
+            unsigned char fin[4 + 64], vd[64]; int vl = -1; static unsigned char frec[256];
+            if (a->m->ver == MX_TLS13) {
+                int hl = a->m->suite == 0x1302 ? 48 : 32; psHmac_t hc; unsigned char trh[64];
+                MX_ENTER(); if (tls13DeriveFinishedKey(T->ssl, !MATRIX_IS_SERVER(T->ssl)) >= 0 && tls13TranscriptHashSnapshot(T->ssl, trh) >= 0 &&
+                    psHmacSingle(&hc, hl == 48 ? HMAC_SHA384 : HMAC_SHA256, T->ssl->sec.tls13FinishedKey, hl, trh, hl, vd) >= 0) vl = hl; MX_LEAVE();
+            } else { MX_ENTER(); vl = sslSnapshotHSHash(T->ssl, vd, PS_FALSE, PS_TRUE); MX_LEAVE(); }
+            if (vl > 0 && vl <= 64) {
+                if (pr) { pr[i].crafted = 1; pr[i].vl = vl; memcpy(pr[i].vd, vd, vl); }
+                fin[0] = 20; fin[1] = 0; fin[2] = 0; fin[3] = (unsigned char) vl; memcpy(fin + 4, vd, vl); vf_stat("consistent_finished_crafted", 1);
+                if (a->m->ver == MX_TLS13) { unit_t fu = { U_HS, 20, fin, 4 + vl, 1, 1 }; feed_unit(k, T, P, &fu); }
+                else if (T->ssl->flags & SSL_FLAGS_READ_SECURE) { memset(P->ssl->sec.seq, 0, 8); int n = mx_seal_as(P, 22, fin, 4 + vl, frec); if (n > 0 && !T->dead) mx_feed(T, frec, n); }
+                else { unit_t fu = { U_HS, 20, fin, 4 + vl, 0, 1 }; feed_unit(k, T, P, &fu); }
+                int dead2 = is_dead(T);
+                if (i == illegalAt && !dead2) o->firstAcceptedIllegal = i;
+                if (!dead2 && matrixSslHandshakeIsComplete(T->ssl) && !o->completedEarly) { o->completedEarly = 1; o->completedAt = i; }
+                if (dead2) break;
+                continue;
+            }
+        }
+        feed_unit(k, T, P, &dseq[i]);
+        int dead = is_dead(T);
+        if (vf_verbose) fprintf(stderr, "  fed %s (%d bytes): dead=%d lastrc=%d err=%d hsState=%d complete=%d\n", tname(dseq[i].type), dseq[i].len, dead, T->lastrc, T->ssl->err, T->ssl->hsState, matrixSslHandshakeIsComplete(T->ssl));
+        if (i == illegalAt && !dead && !k->dtls) o->firstAcceptedIllegal = i;
+        if (!dead && matrixSslHandshakeIsComplete(T->ssl) && !o->completedEarly) { o->completedEarly = 1; o->completedAt = i; }
+        if (dead) break;
+    }
+}
+/* Coalesced framing: maximal runs of handshake messages the receiver reads under one protection state travel in ONE record (plaintext, or one
+   TLS 1.3 record under the sender's key), ChangeCipherSpec and TLS <= 1.2 protected records on their own in between.  A Finished is the value
+   the probe computed over the receiver's transcript at that point (zero / current master secret included), so that a message behind the
+   deviation point is only ever refused by the state machine, never by a transcript mismatch. */
+static void feed_coalesced(child_arg *a, mx_conn *k, mx_ep *T, mx_ep *P, unit_t *dseq, int nd, int same, int illegalAt, const probe_t *pr, fres_t *o)
+{
+    static unsigned char grp[70000], fins[32][4 + 64], frec[256]; int gl = 0, gcls = -1, gtype = 0, lastcls = cls_of(k, T, P), ngroups = 0, maxrun = 0, run = 0; (void) same;
+    for (int i = 0; i <= nd; i++) {
+        unit_t x; int cls = lastcls, have = i < nd;
+        if (have) { x = dseq[i]; if (pr[i].reached) cls = pr[i].cls; lastcls = cls;
+            if (pr[i].crafted) { fins[i][0] = 20; fins[i][1] = 0; fins[i][2] = 0; fins[i][3] = (unsigned char) pr[i].vl; memcpy(fins[i] + 4, pr[i].vd, pr[i].vl); x = (unit_t) { U_HS, 20, fins[i], 4 + pr[i].vl, cls == 1, 1 }; vf_stat("consistent_finished_crafted", 1); } }
+        int joinable = have && x.kind == U_HS && cls != 3 && gl + x.len < 16000;
+        if (gl && (!joinable || cls != gcls)) {   /* close the pending record */
+            unit_t gu = { U_HS, gtype, grp, gl, gcls == 1, 1 }; feed_unit_whole(k, T, P, &gu); gl = 0; ngroups++; if (run > maxrun) maxrun = run; run = 0;
+            int dead = is_dead(T);
+            if (vf_verbose) fprintf(stderr, "  fed coalesced record ending with message %d: dead=%d lastrc=%d err=%d hsState=%d complete=%d\n", i - 1, dead, T->lastrc, T->ssl->err, T->ssl->hsState, matrixSslHandshakeIsComplete(T->ssl));
+            if (illegalAt >= 0 && illegalAt <= i - 1 && !dead && o->firstAcceptedIllegal < 0) o->firstAcceptedIllegal = illegalAt;
+            if (!dead && matrixSslHandshakeIsComplete(T->ssl) && !o->completedEarly) { o->completedEarly = 1; o->completedAt = i - 1; }
+            if (dead) break;
+        }
+        if (!have) break;
+        if (joinable) { if (!gl) { gcls = cls; gtype = x.type; } memcpy(grp + gl, x.body, x.len); gl += x.len; run++; continue; }
+        if (pr[i].crafted && cls == 3) { memset(P->ssl->sec.seq, 0, 8); int n = mx_seal_as(P, 22, x.body, x.len, frec); if (n > 0 && !T->dead) mx_feed(T, frec, n); }
+        else feed_unit_whole(k, T, P, &x);
+        int dead = is_dead(T);
+        if (vf_verbose) fprintf(stderr, "  fed %s on its own (%d bytes): dead=%d lastrc=%d err=%d hsState=%d complete=%d\n", tname(x.type), x.len, dead, T->lastrc, T->ssl->err, T->ssl->hsState, matrixSslHandshakeIsComplete(T->ssl));
+        if (i == illegalAt && !dead && o->firstAcceptedIllegal < 0) o->firstAcceptedIllegal = i;
+        if (!dead && matrixSslHandshakeIsComplete(T->ssl) && !o->completedEarly) { o->completedEarly = 1; o->completedAt = i; }
+        if (dead) break;
+    }
+    if (maxrun >= 2) vf_stat("coalesced_cases_with_several_messages_in_one_record", 1);
 }
 
 static void child_run(void *a_)
 {
     child_arg *a = a_; mx_conn *k = a->k; mx_ep *T = a->role == MX_SERVER ? &k->s : &k->c, *P = a->role == MX_SERVER ? &k->c : &k->s; int d = a->role == MX_SERVER ? 0 : 1;
     unit_t u[24], dseq[32]; int nu, nd = 0;
-    vf_stat("cases", 1); feed_frag = a->frag; feed_flight = a->flightNo; if (getenv("C06_PERMODE")) vf_statf(1, "n_%s_%.40s_%d", mx_vername[a->m->ver], a->m->name, a->role); if (a->frag) vf_stat("cases_fragmented_framing", 1);
+    vf_stat("cases", 1); feed_frag = a->frag == 1; feed_flight = a->flightNo; if (getenv("C06_PERMODE")) vf_statf(1, "n_%s_%.40s_%d", mx_vername[a->m->ver], a->m->name, a->role); if (a->frag == 1) vf_stat("cases_fragmented_framing", 1); if (a->frag == 2) vf_stat("cases_coalesced_framing", 1);
     nu = split_flight(k, T, P, k->q[d] + k->qoff[d], k->qlen[d] - k->qoff[d], u, 24);
     if (nu <= 0) { vf_stat("flight_not_splittable", 1); return; }
     k->qoff[d] = k->qlen[d];
+    /* a deviant client that presents a public certificate of another key type in place of its own (it cannot sign with it: the honest CertificateVerify is then void) */
+    if (a->m->ckt && !ck_honest(a->m) && a->role == MX_SERVER && a->dv.kind != DV_NONE && !k->dtls) for (int i = 0; i < nu; i++) if (u[i].kind == U_HS && u[i].type == 11) {
+        int dl = ck_derlen[a->m->ckt], t13 = a->m->ver == MX_TLS13, cl = t13 ? u[i].body[4] : 0, o = 4; unsigned char *nb = malloc(dl + cl + 32);
+        if (t13) { memcpy(nb + 4, u[i].body + 4, 1 + cl); o += 1 + cl; }        /* certificate_request_context echoed */
+        int ll = 3 + dl + (t13 ? 2 : 0); nb[o] = ll >> 16; nb[o + 1] = ll >> 8; nb[o + 2] = ll; o += 3; nb[o] = dl >> 16; nb[o + 1] = dl >> 8; nb[o + 2] = dl; o += 3; memcpy(nb + o, ck_der[a->m->ckt], dl); o += dl; if (t13) { nb[o++] = 0; nb[o++] = 0; }
+        nb[0] = 11; nb[1] = (o - 4) >> 16; nb[2] = (o - 4) >> 8; nb[3] = o - 4; u[i].body = nb; u[i].len = o; vf_stat("client_certificate_substituted", 1); }
     /* DTLS record sequence numbers for the re-framed plaintext records: continue after the highest epoch-0 number the sender used */
     dtls_rsn_next = 40 + a->flightNo * 40;
     /* build the deviant sequence */
@@ -326,38 +432,19 @@ static void child_run(void *a_)
         int ns = g_next(&g, st, dseq[i].type); if (ns < 0) { illegalAt = i; break; } st = ns; }
     char seqs[400]; int so = 0; seqs[0] = 0; for (int i = 0; i < nd && so < 360; i++) so += snprintf(seqs + so, sizeof seqs - so, "%s%s%s", i ? "," : "", i == illegalAt ? "!" : "", tname(dseq[i].type));
     vf_distinct("%s|%s|%d|f%d|%s|%d|%d|fr%d", mx_vername[a->m->ver], a->m->name, a->role, a->flightNo, dvname[dv->kind], dv->pos, dv->type, a->frag);
-    /* feed one message at a time */
-    int firstAcceptedIllegal = -1, completedEarly = 0, completedAt = -1;
-    for (int i = 0; i < nd; i++) {
-        if (dv->kind != DV_NONE && !same && !k->dtls && (dseq[i].type == 20 || dseq[i].type == T_ENCFIN) && !is_dead(T)) {
-            /* transcript-consistent deviant peer: a real (malicious) peer knows the session secrets and sends the Finished value that
-               matches the sequence it actually sent, i.e. the one the receiver expects over ITS transcript.  Compute that value with
-               the receiver's own snapshot function and seal it with the sender's keys. */
-            unsigned char fin[4 + 64], vd[64]; int vl = -1; static unsigned char frec[256];
-            if (a->m->ver == MX_TLS13) {
-                int hl = a->m->suite == 0x1302 ? 48 : 32; psHmac_t hc; unsigned char trh[64];
-                MX_ENTER(); if (tls13DeriveFinishedKey(T->ssl, !MATRIX_IS_SERVER(T->ssl)) >= 0 && tls13TranscriptHashSnapshot(T->ssl, trh) >= 0 &&
-                    psHmacSingle(&hc, hl == 48 ? HMAC_SHA384 : HMAC_SHA256, T->ssl->sec.tls13FinishedKey, hl, trh, hl, vd) >= 0) vl = hl; MX_LEAVE();
-            } else { MX_ENTER(); vl = sslSnapshotHSHash(T->ssl, vd, PS_FALSE, PS_TRUE); MX_LEAVE(); }
-            if (vl > 0 && vl <= 64) {
-                fin[0] = 20; fin[1] = 0; fin[2] = 0; fin[3] = (unsigned char) vl; memcpy(fin + 4, vd, vl); vf_stat("consistent_finished_crafted", 1);
-                if (a->m->ver == MX_TLS13) { unit_t fu = { U_HS, 20, fin, 4 + vl, 1, 1 }; feed_unit(k, T, P, &fu); }
-                else if (T->ssl->flags & SSL_FLAGS_READ_SECURE) { memset(P->ssl->sec.seq, 0, 8); int n = mx_seal_as(P, 22, fin, 4 + vl, frec); if (n > 0 && !T->dead) mx_feed(T, frec, n); }
-                else { unit_t fu = { U_HS, 20, fin, 4 + vl, 0, 1 }; feed_unit(k, T, P, &fu); }
-                int dead2 = is_dead(T);
-                if (i == illegalAt && !dead2) firstAcceptedIllegal = i;
-                if (!dead2 && matrixSslHandshakeIsComplete(T->ssl) && !completedEarly) { completedEarly = 1; completedAt = i; }
-                if (dead2) break;
-                continue;
-            }
-        }
-        feed_unit(k, T, P, &dseq[i]);
-        int dead = is_dead(T);
-        if (vf_verbose) fprintf(stderr, "  fed %s (%d bytes): dead=%d lastrc=%d err=%d hsState=%d complete=%d\n", tname(dseq[i].type), dseq[i].len, dead, T->lastrc, T->ssl->err, T->ssl->hsState, matrixSslHandshakeIsComplete(T->ssl));
-        if (i == illegalAt && !dead && !k->dtls) firstAcceptedIllegal = i;
-        if (!dead && matrixSslHandshakeIsComplete(T->ssl) && !completedEarly) { completedEarly = 1; completedAt = i; }
-        if (dead) break;
-    }
+    /* feed the deviant sequence: one message per record (frag 0/1), or coalesced (frag 2) - then a forked probe of the one-message-per-record
+       run first tells, per message, under which protection the receiver would read it and which Finished value matches its transcript there */
+    fres_t fr_ = { -1, 0, -1 }; probe_t pr[32]; memset(pr, 0, sizeof pr);
+    if (a->frag == 2) {
+        int pfd[2]; if (pipe(pfd)) { vf_incon("pipe failed"); return; }
+        fflush(NULL); pid_t pp = fork(); if (pp < 0) { vf_incon("fork failed"); return; }
+        if (pp == 0) { close(pfd[0]); alarm(40); fres_t f2 = { -1, 0, -1 }; feed_per_record(a, k, T, P, dseq, nd, same, illegalAt, pr, &f2); ssize_t w = write(pfd[1], pr, sizeof pr); _exit(w == (ssize_t) sizeof pr ? 0 : 3); }
+        close(pfd[1]); size_t got = 0; ssize_t r_; while (got < sizeof pr && (r_ = read(pfd[0], (char *) pr + got, sizeof pr - got)) > 0) got += r_; close(pfd[0]);
+        int st_ = 0; while (waitpid(pp, &st_, 0) < 0 && errno == EINTR) ;
+        if (got != sizeof pr || !WIFEXITED(st_) || WEXITSTATUS(st_)) { fprintf(stderr, "C06: the one-message-per-record probe of a coalesced case ended abnormally (status %d)\n", st_); abort(); }   /* its sanitizer report is in this case's stderr */
+        feed_coalesced(a, k, T, P, dseq, nd, same, illegalAt, pr, &fr_);
+    } else feed_per_record(a, k, T, P, dseq, nd, same, illegalAt, NULL, &fr_);
+    int firstAcceptedIllegal = fr_.firstAcceptedIllegal, completedEarly = fr_.completedEarly, completedAt = fr_.completedAt;
     if (firstAcceptedIllegal >= 0) {
         /* The state machine let an illegal message through.  The statement is violated only if the handshake can then COMPLETE,
            which needs a sender whose own transcript contains the same deviant sequence: give the honest sender that transcript
@@ -382,7 +469,8 @@ static void child_run(void *a_)
     mx_conn_run(k, NULL, NULL, 300);
     /* completion observed at any point counts, whatever follows - unless it happened exactly when the complete honest flight had been
        consumed as a prefix of the deviant sequence (what comes after a completed handshake is C15's subject) */
-    int honestPrefix = completedEarly && completedAt == nu - 1;
+    /* coalesced framing: completion is observed per record; a record that begins with the complete honest flight may legally complete the handshake */
+    int honestPrefix = completedEarly && (completedAt == nu - 1 || (a->frag == 2 && completedAt >= nu - 1));
     for (int j = 0; honestPrefix && j < nu; j++) { int fin = (dseq[j].type == 20 || dseq[j].type == T_ENCFIN) && (u[j].type == 20 || u[j].type == T_ENCFIN);   /* a crafted Finished stands for the honest one */
         if (!fin && (dseq[j].type != u[j].type || dseq[j].len != u[j].len || memcmp(dseq[j].body, u[j].body, u[j].len))) honestPrefix = 0; }
     int complete = ((matrixSslHandshakeIsComplete(T->ssl) && !is_dead(T)) || completedEarly) && !honestPrefix;
@@ -414,6 +502,7 @@ static void at_flight(mx_conn *k, const hmode_t *m, int role, int flightNo, int 
     list[nl++] = (devn_t) { DV_NONE, 0, 0 };
     if (k->dtls) { for (int i = 0; i < nu; i++) list[nl++] = (devn_t) { DV_DELETE, i, u[i].type }; goto run; }   /* duplicates, reordering and stray records may legally be ignored by DTLS */
     for (int i = 0; i < nu; i++) { list[nl++] = (devn_t) { DV_DELETE, i, u[i].type }; list[nl++] = (devn_t) { DV_DUP, i, u[i].type }; if (i + 1 < nu) list[nl++] = (devn_t) { DV_SWAP, i, u[i].type }; }
+    if (m->ckt && !vf_thorough) goto run;      /* key-type modes, quick: no injections */
     for (int i = 0; i <= nu; i++) { for (int t = 0; t < nalpha; t++) { list[nl++] = (devn_t) { DV_INJECT, i, alphabet[t] }; int a2 = alphabet[t]; if (nl < 890 && (vf_thorough || a2 == 4 || a2 == 12 || a2 == 13 || a2 == 22 || a2 == 8)) list[nl++] = (devn_t) { DV_INJECT2, i, a2 }; } if (m->ver != MX_TLS13) list[nl++] = (devn_t) { DV_CCS, i, T_CCS }; }
 run:
     /* skipping a block of 2 .. nu-1 adjacent messages (e.g. Certificate + CertificateVerify, ClientKeyExchange + ChangeCipherSpec) */
@@ -421,10 +510,12 @@ run:
     for (int j = 0; j < nl; j++) {
         long idx = g_idx++;
         if (!grp_mine(idx)) continue;
-        for (int fr = 0; fr < 2; fr++) {
-            if (fr && (k->dtls || !((m->ver == MX_TLS13 && !m->lightfrag) || vf_thorough || (j % 3) == 0))) continue;     /* fragmented framing: all cases of the basic TLS 1.3 modes, a third of the others in quick */
+        for (int fr = 0; fr < 3; fr++) {
+            /* coalesced framing (not DTLS): every deletion, skipped block, swap, duplicate, premature ChangeCipherSpec and injected Finished, a seventh of the other injections in quick */
+            if (fr == 2 && (k->dtls || !(vf_thorough || list[j].kind == DV_NONE || list[j].kind == DV_DELETE || list[j].kind == DV_DELRUN || list[j].kind == DV_SWAP || list[j].kind == DV_DUP || list[j].kind == DV_CCS || (list[j].kind == DV_INJECT && list[j].type == 20) || (j % 7) == 1))) continue;
+            if (fr == 1 && (k->dtls || !((m->ver == MX_TLS13 && !m->lightfrag) || vf_thorough || (j % 3) == 0))) continue;     /* fragmented framing: all cases of the basic TLS 1.3 modes, a third of the others in quick */
             child_arg a = { k, m, role, flightNo, gstate0, list[j], resumedActually, clientSentCert, ticketNeg, fr, earlyAccepted };
-            snprintf(cur_desc, sizeof cur_desc, "mode=%s/%s role=%d flight=%d dev=%s pos=%d type=%d%s", mx_vername[m->ver], m->name, role, flightNo, dvname[list[j].kind], list[j].pos, list[j].type, fr ? " frag" : "");
+            snprintf(cur_desc, sizeof cur_desc, "mode=%s/%s role=%d flight=%d dev=%s pos=%d type=%d%s", mx_vername[m->ver], m->name, role, flightNo, dvname[list[j].kind], list[j].pos, list[j].type, fr == 1 ? " frag" : fr == 2 ? " coalesced" : "");
             if (vf_case && strcmp(vf_case, cur_desc)) continue;
             if (idx % 503 == 0 && !fr) vf_sample("%s", cur_desc);
             vf_fork_case(child_run, &a, "c06", cur_desc, 60);
@@ -517,7 +608,7 @@ int main(int argc, char **argv)
 {
     vf_init(argc, argv); mx_global_init(); mx_keys_load(); own_keys_load(); build_modes();
     grp_init(); int pair = 0;
-    for (int i = 0; i < nmodes; i++) for (int role = 0; role < 2; role++) { if (!vf_thorough && !vf_case && !(modes[i].quick & (1 << role))) continue; if ((pair++) % grp_n != grp_of_shard) continue; mx_entropy_seed(vf_seed * 977 + i * 2 + role); run_mode(&modes[i], role); }
+    for (int i = 0; i < nmodes; i++) for (int role = 0; role < 2; role++) { if (!vf_thorough && !vf_case && !(modes[i].quick & (1 << role))) continue; if (getenv("C06_ONLY") && !strstr(modes[i].name, getenv("C06_ONLY"))) continue; if ((pair++) % grp_n != grp_of_shard) continue; mx_entropy_seed(vf_seed * 977 + i * 2 + role); run_mode(&modes[i], role); }
     own_keys_free(); mx_keys_free(); matrixSslClose(); vf_flush();
     return 0;
 }
